@@ -49,6 +49,34 @@ theorem R2.halt {cx : Cx} {m j : Nat} {p : LPos} {n : Nat} {e : Ev} (hp : (labLT
   | zero => trivial
   | succ m => exact fun j' => G.halt hp hn
 
+theorem R2.monoJ {cx : Cx} {m j j' : Nat} {p : LPos} {n : Nat} (h : R2 cx m j p n) (hle : j' ≤ j) : R2 cx m j' p n :=
+  ⟨h.1, G.monoJ hle h.2⟩
+
+/-- agreement one level down with every search bound is agreement at this level -/
+theorem EE_of_lower {cx : Cx} {m : Nat} {p : LPos} {n : Nat} (h : ∀ m' j', m' < m → R2 cx m' j' p n) : EE cx m p n := by
+  cases m with
+  | zero => trivial
+  | succ m => exact fun j => (h m j (Nat.lt_succ_self m)).2
+
+theorem GG_zero (cx : Cx) (m : Nat) (p : LPos) (n : Nat) : GG cx 0 m p n :=
+  ⟨fun h hs => by simp [settle] at hs, fun h hs => by simp [settle] at hs⟩
+
+/-- the induction for a loop head: agreement at `(m, j)` may use agreement at every lower `m` and, at the same `m`, at
+every lower search bound -/
+theorem loop_ind {cx : Cx} {P : LPos} {h : Nat} (Hyp : Nat → Nat → Prop)
+    (hdown : ∀ m j m' j', Hyp m j → m' < m → Hyp m' j') (hmono : ∀ m j j', Hyp m j → j' ≤ j → Hyp m j')
+    (step : ∀ m j, Hyp m j → (∀ m' j', m' < m → R2 cx m' j' P h) → (∀ j', j' < j → R2 cx m j' P h) → R2 cx m j P h) :
+    ∀ m j, Hyp m j → R2 cx m j P h := by
+  intro m
+  induction m using Nat.strongRecOn with
+  | ind m ih =>
+    intro j
+    induction j using Nat.strongRecOn with
+    | ind j ihj =>
+      intro hyp
+      exact step m j hyp (fun m' j' hlt => ih m' hlt j' (hdown m j m' j' hyp hlt))
+        (fun j' hlt => ihj j' hlt (hmono m j j' hyp (Nat.le_of_lt hlt)))
+
 /-! ### exits: the labels on the loop / case stacks against the nodes `continue`, `break_loop`, `break` go to -/
 
 structure ExitsOK (cx : Cx) (m j : Nat) (s : St) (env : Src.Env) : Prop where
@@ -64,6 +92,15 @@ theorem ExitsOK.down {cx : Cx} {m j m' : Nat} (j' : Nat) {s : St} {env : Src.Env
    fun e rest hs => by
     obtain ⟨kb, a, b⟩ := h.case e rest hs
     exact ⟨kb, a, b.down j' hlt⟩⟩
+
+theorem ExitsOK.monoJ {cx : Cx} {m j j' : Nat} {s : St} {env : Src.Env} (h : ExitsOK cx m j s env) (hle : j' ≤ j) :
+    ExitsOK cx m j' s env :=
+  ⟨fun cl bl rest hs => by
+    obtain ⟨kc, kb, a, b, c, d⟩ := h.loop cl bl rest hs
+    exact ⟨kc, kb, a, b, c.monoJ hle, d.monoJ hle⟩,
+   fun e rest hs => by
+    obtain ⟨kb, a, b⟩ := h.case e rest hs
+    exact ⟨kb, a, b.monoJ hle⟩⟩
 
 theorem ExitsOK.same {cx : Cx} {m j : Nat} {s s1 : St} {env : Src.Env} (h : ExitsOK cx m j s env) (hl : s1.loops = s.loops)
     (hc : s1.cases = s.cases) : ExitsOK cx m j s1 env :=
@@ -88,8 +125,8 @@ structure PieceOK (cx : Cx) (items : List LItem) (s s' : St) (trf : Nat → Src.
   /-- an empty piece stands for nothing -/
   empty : items = [] → ∀ k b, trf k b = (b, k)
   /-- a piece that is one `Jump` (`_process_block` may fold it into the header jumps): the statement goes to an exit -/
-  lone : ∀ l, loneJump items = some (some l) → ∃ n, (∀ k b, trf k b = (b, n)) ∧
-    ∀ m j, ExitsOK cx m j s env → R2 cx m j (target cx.rs l) n
+  lone : ∀ l, loneJump items = some (some l) → ∀ m j, ExitsOK cx m j s env → ∃ n, (∀ k b, trf k b = (b, n)) ∧
+    R2 cx m j (target cx.rs l) n
   grow : ∀ k b, Grow b (trf k b).1
   corr : ∀ r i0, Placed cx.rs r i0 items → afterCtxL cx.rs ⟨r, i0⟩ = false → ∀ k b, AgreeOn cx.N b (trf k b).1 →
     ∀ m j, ExitsOK cx m j s env → (falls items = true → R2 cx m j ⟨r, i0 + items.length⟩ k) → R2 cx m j ⟨r, i0⟩ (trf k b).2
